@@ -4,6 +4,7 @@ package main
 // GLFW, GL and PortAudio are the pure-Go stand-ins of harness/stubs.
 
 import (
+	"path/filepath"
 	"bytes"
 	"context"
 	"io/ioutil"
@@ -122,6 +123,20 @@ func init() {
 		defer os.Remove(f.Name())
 		gbNew(ai(a, 1), f.Name(), true, optBool(a, 5, false), optBool(a, 6, false))
 	})
+	// gb.newsame I TYPE ROMCODE RAMCODE [AUD VID]: like gb.newloop, but every image of the process is written to the same
+	// path (the file is rewritten for each machine, as a front end reloading "the current ROM" does)
+	register("gb.newsame", func(a []string) {
+		romc := ai(a, 3)
+		img := make([]byte, 0x8000<<uint(romc))
+		img[0x100], img[0x101] = 0x18, 0xfe
+		img[0x147], img[0x148], img[0x149] = byte(ai(a, 2)), byte(romc), byte(ai(a, 4))
+		path := filepath.Join(os.TempDir(), sprintf("verif-rom-same-%d.gb", os.Getpid()))
+		if err := ioutil.WriteFile(path, img, 0644); err != nil {
+			panic(err)
+		}
+		defer os.Remove(path)
+		gbNew(ai(a, 1), path, true, optBool(a, 5, false), optBool(a, 6, false))
+	})
 	register("gb.frames", func(a []string) {
 		g := gbs[ai(a, 1)]
 		for i := 0; i < ai(a, 2); i++ {
@@ -222,6 +237,24 @@ func init() {
 		case <-done:
 			emit("run returned frames=%d glfwTerminate=%d paClose=%d paTerminate=%d", glfw.SwapCalls-before, glfw.TerminateCalls, portaudio.CloseCalls, portaudio.TerminateCalls)
 		case <-time.After(60 * time.Second):
+			emit("run did not return")
+		}
+	})
+	// gb.rundeadline I MS : like gb.runcancel with a context that ends by its deadline (context.WithTimeout), the way the
+	// repository's own ROM runners stop the machine
+	register("gb.rundeadline", func(a []string) {
+		g := gbs[ai(a, 1)]
+		ctx, cancel := context.WithTimeout(context.Background(), time.Duration(ai(a, 2))*time.Millisecond)
+		defer cancel()
+		done := make(chan struct{})
+		go func() { g.gb.Run(ctx); close(done) }()
+		<-ctx.Done()
+		before := glfw.SwapCalls
+		select {
+		case <-done:
+			extra := glfw.SwapCalls - before
+			emit("run returned extra_le_1=%d glfwTerminate=%d paClose=%d paTerminate=%d", b2i(extra <= 1), glfw.TerminateCalls, portaudio.CloseCalls, portaudio.TerminateCalls)
+		case <-time.After(20 * time.Second):
 			emit("run did not return")
 		}
 	})
